@@ -1,7 +1,8 @@
 (* C12 — A fresh chunk always fits the request that caused it; sizes never wrap.
    Only pinned statements, `exact`, and Print Assumptions. *)
 From Coq Require Import ZArith.
-From BS Require Import Word BumpSpec ChunkSpec ChunkRefine.
+From BS Require Import Word BumpSpec ChunkSpec ChunkRefine Arena AllocRefine.
+From BS.gen Require AllocSites.
 From BS.gen Require Import SizeCfg.
 Open Scope Z_scope.
 
@@ -63,6 +64,32 @@ Theorem C12_fresh_chunk_fits :
                  ((align | size) -> spec_prep_down b (b + u - hs) size align <> None)).
 Proof. exact fresh_chunk_fits_gen. Qed.
 
+(* how a new chunk's size hint is composed in the CURRENT source (NonDummyChunk::grow_size / append_for in raw_bump.rs,
+   ChunkSizeHint::max / calc_size in chunk/size.rs; cut out and translated on every run): twice the previous chunk's
+   SIZE (an overflowing doubling is an error), the maximum with the required hint, then with the minimum chunk size -
+   exactly the hint the arena model hands to calc_size_from_hint (Arena.new_chunk_size) *)
+Theorem C12_source_grow_size_is_the_models :
+  forall ps, AllocSites.grow_size_hint ps = Ok (if W <=? 2 * ps then None else Some (2 * ps)).
+Proof. exact grow_size_hint_refines. Qed.
+
+Theorem C12_source_hint_composition_is_the_models :
+  forall req grown minimum,
+  AllocSites.hint_max req grown = Ok (Z.max req grown) /\
+  AllocSites.calc_size_hint (Z.max req grown) minimum = Ok (Z.max (Z.max req grown) minimum).
+Proof. exact hint_composition_refines. Qed.
+
+Theorem C12_model_chunk_size_in_those_terms :
+  forall c ps size align,
+  new_chunk_size c (Some ps) size align =
+  (let req := spec_hint (up c) (hs c) (ha c) size align in
+   if W <=? req then None else
+   if W <=? 2 * ps then None else
+   let hint := Z.max (Z.max req (2 * ps)) (min_chunk c) in
+   if W <=? spec_size0 (hs c) (ha c) hint then None else
+   let n := spec_size_from_hint (up c) (hs c) (ha c) hint in
+   if IMAX - (ha c - 1) <? n then None else Some n).
+Proof. exact model_new_chunk_size. Qed.
+
 Print Assumptions C12_calc_hint_refines.
 Print Assumptions C12_calc_size_refines.
 Print Assumptions C12_align_size_refines.
@@ -70,3 +97,6 @@ Print Assumptions C12_size_never_wraps.
 Print Assumptions C12_next_ge_double_less_16.
 Print Assumptions C12_align_size_between.
 Print Assumptions C12_fresh_chunk_fits.
+Print Assumptions C12_source_grow_size_is_the_models.
+Print Assumptions C12_source_hint_composition_is_the_models.
+Print Assumptions C12_model_chunk_size_in_those_terms.
